@@ -1,0 +1,100 @@
+// Copyright 2026 The etcd Authors
+//
+// Licensed under the Apache License, Version 2.0 (the "License");
+// you may not use this file except in compliance with the License.
+// You may obtain a copy of the License at
+//
+//     http://www.apache.org/licenses/LICENSE-2.0
+//
+// Unless required by applicable law or agreed to in writing, software
+// distributed under the License is distributed on an "AS IS" BASIS,
+// WITHOUT WARRANTIES OR CONDITIONS OF ANY KIND, either express or implied.
+// See the License for the specific language governing permissions and
+// limitations under the License.
+
+//go:build verif
+
+package raft
+
+import (
+	pb "go.etcd.io/raft/v3/raftpb"
+)
+
+// VerifLog exposes the unexported raftLog (stable storage plus unstable tail)
+// to external verification harnesses. It is only compiled with the "verif"
+// build tag and is a pure pass-through: every method calls the method of the
+// same name on raftLog/unstable.
+type VerifLog struct {
+	l *raftLog
+}
+
+// NewVerifLog creates a raftLog over the given storage.
+func NewVerifLog(storage Storage, logger Logger, maxApplyingEntsSize uint64) *VerifLog {
+	return &VerifLog{l: newLogWithSize(storage, logger, entryEncodingSize(maxApplyingEntsSize))}
+}
+
+func (v *VerifLog) Append(ents ...*pb.Entry) uint64 { return v.l.append(ents...) }
+
+// MaybeAppend is raftLog.maybeAppend for a MsgApp-like slice.
+func (v *VerifLog) MaybeAppend(leaderTerm, prevIndex, prevTerm, committed uint64, ents []*pb.Entry) (uint64, bool) {
+	return v.l.maybeAppend(logSlice{
+		term:    leaderTerm,
+		prev:    entryID{term: prevTerm, index: prevIndex},
+		entries: ents,
+	}, committed)
+}
+
+func (v *VerifLog) Term(i uint64) (uint64, error) { return v.l.term(i) }
+func (v *VerifLog) Slice(lo, hi, maxSize uint64) ([]*pb.Entry, error) {
+	return v.l.slice(lo, hi, entryEncodingSize(maxSize))
+}
+func (v *VerifLog) Entries(i, maxSize uint64) ([]*pb.Entry, error) {
+	return v.l.entries(i, entryEncodingSize(maxSize))
+}
+func (v *VerifLog) FirstIndex() uint64                 { return v.l.firstIndex() }
+func (v *VerifLog) LastIndex() uint64                  { return v.l.lastIndex() }
+func (v *VerifLog) Committed() uint64                  { return v.l.committed }
+func (v *VerifLog) Applying() uint64                   { return v.l.applying }
+func (v *VerifLog) Applied() uint64                    { return v.l.applied }
+func (v *VerifLog) NextUnstableEnts() []*pb.Entry      { return v.l.nextUnstableEnts() }
+func (v *VerifLog) HasNextUnstableEnts() bool          { return v.l.hasNextUnstableEnts() }
+func (v *VerifLog) NextUnstableSnapshot() *pb.Snapshot { return v.l.nextUnstableSnapshot() }
+func (v *VerifLog) HasNextOrInProgressSnapshot() bool {
+	return v.l.hasNextOrInProgressSnapshot()
+}
+func (v *VerifLog) AcceptUnstable()             { v.l.acceptUnstable() }
+func (v *VerifLog) StableTo(index, term uint64) { v.l.stableTo(entryID{term: term, index: index}) }
+func (v *VerifLog) StableSnapTo(i uint64)       { v.l.stableSnapTo(i) }
+func (v *VerifLog) Restore(s *pb.Snapshot)      { v.l.restore(s) }
+func (v *VerifLog) CommitTo(i uint64)           { v.l.commitTo(i) }
+func (v *VerifLog) AppliedTo(i, size uint64)    { v.l.appliedTo(i, entryEncodingSize(size)) }
+func (v *VerifLog) AcceptApplying(i, size uint64, allowUnstable bool) {
+	v.l.acceptApplying(i, entryEncodingSize(size), allowUnstable)
+}
+func (v *VerifLog) NextCommittedEnts(allowUnstable bool) []*pb.Entry {
+	return v.l.nextCommittedEnts(allowUnstable)
+}
+func (v *VerifLog) HasNextCommittedEnts(allowUnstable bool) bool {
+	return v.l.hasNextCommittedEnts(allowUnstable)
+}
+func (v *VerifLog) FindConflictByTerm(index, term uint64) (uint64, uint64) {
+	return v.l.findConflictByTerm(index, term)
+}
+func (v *VerifLog) MatchTerm(index, term uint64) bool {
+	return v.l.matchTerm(entryID{term: term, index: index})
+}
+func (v *VerifLog) IsUpToDate(index, term uint64) bool {
+	return v.l.isUpToDate(entryID{term: term, index: index})
+}
+func (v *VerifLog) MaybeCommit(index, term uint64) bool {
+	return v.l.maybeCommit(entryID{term: term, index: index})
+}
+
+// UnstableOffsets returns unstable.offset, unstable.offsetInProgress and the
+// number of unstable entries.
+func (v *VerifLog) UnstableOffsets() (offset, offsetInProgress uint64, n int) {
+	return v.l.unstable.offset, v.l.unstable.offsetInProgress, len(v.l.unstable.entries)
+}
+
+// VerifEntsSize is entsSize, the encoding size used for all size limits.
+func VerifEntsSize(ents []*pb.Entry) uint64 { return uint64(entsSize(ents)) }
